@@ -1002,6 +1002,18 @@ func (env *SpecEnv) callExpr(x *ast.CallExpr) SVal {
 		return sBool(sx("<", v.C[0], vc.get(env.old, "$alloc")))
 	case "disjoint":
 		a, b := arg(0), arg(1)
+		// a map argument stands for the memory holding the string / slice data
+		// of its keys and values: the interval [maplo(m), maphi(m))
+		mapExt := func(v SVal) SVal {
+			if v.T != nil {
+				if _, ok := v.T.Underlying().(*types.Map); ok {
+					lo, hi := sx("maplo", v.C[0]), sx("maphi", v.C[0])
+					return SVal{T: types.NewSlice(types.Typ[types.Uint8]), C: []Term{lo, sx("-", hi, lo), sx("-", hi, lo)}}
+				}
+			}
+			return v
+		}
+		a, b = mapExt(a), mapExt(b)
 		alen, blen := env.extent(a), env.extent(b)
 		// an empty extent (nil slice) is disjoint from everything
 		return sBool(or(sx("<=", alen, "0"), sx("<=", blen, "0"), sx("<=", sx("+", a.C[0], alen), b.C[0]), sx("<=", sx("+", b.C[0], blen), a.C[0])))
